@@ -63,6 +63,16 @@ def findEpsilon (f : Rat → Rat) (a b precision : Rat) : Rat :=
   let S := (h / 6) * (f a + 4 * f c + f b)
   precision * S
 
+/-- precision handed to `Find_Epsilon` by the "Adaptive-Simpson" branch (fix ad02385: a tenth of the
+    1e-9 target, because adaptive Simpson is only guaranteed to four times the requested tolerance, C03) -/
+def simpsonPrecision : Rat := 1 / (10 : Rat) ^ 10
+
+/-- the "Adaptive-Simpson" branch: `eps = Find_Epsilon(func,a,b,1e-10); Integrate(func,a,b,eps)` over an
+    abstract adaptive-Simpson integrator `S f a b eps` (C03).  `I .adaptiveSimpson` of the dispatch is this
+    function of `(f, a, b)`. -/
+def adaptiveSimpsonBranch (S : (Rat → Rat) → Rat → Rat → Rat → Rat) (f : Rat → Rat) (a b : Rat) : Rat :=
+  S f a b (findEpsilon f a b simpsonPrecision)
+
 /-- the body of `Integrate(func,a,b,method,param)` for a recognised method -/
 def int1 (I : Integ) (m : Method) (p : Int) (f : Rat → Rat) (a b : Rat) : Rat :=
   if a = b then 0
